@@ -35,6 +35,19 @@ Theorem c23_parse_build_multi : forall deser,
 Proof. exact parse_build_multi_proof. Qed.
 Print Assumptions c23_parse_build_multi.
 
+(** Conversely the script determines the sorted key list and the threshold: two accepted
+    parameter sets that build the same script have the same keys (up to order) and the same m. *)
+Theorem c23_script_determines_keys : forall deser,
+  (forall b, (length b <= 3)%nat -> deser b = None) ->
+  forall keys keys' m m' prog,
+  Forall (key_ok deser) keys -> Forall (key_ok deser) keys' ->
+  multi_params_ok m (Z.of_nat (length keys)) = true ->
+  multi_params_ok m' (Z.of_nat (length keys')) = true ->
+  program_from_multi_pubkey keys m = BOk prog -> program_from_multi_pubkey keys' m' = BOk prog ->
+  sort_keys keys = sort_keys keys' /\ m = m'.
+Proof. exact multi_script_determines_keys. Qed.
+Print Assumptions c23_script_determines_keys.
+
 (** "sorted" means: a permutation of the input that is ordered by the key order. *)
 Theorem c23_sort_is_sorted_permutation : forall keys, Forall key_known keys ->
   Permutation (sort_keys keys) keys /\ sorted_le (sort_keys keys).
